@@ -11,7 +11,8 @@ Inductive cmpop := CLt | CLe | CGt | CGe | CEq | CNe.
 
 Inductive atom :=
 | AField (name : bytes)      (* an identifier: field name, id, type, this *)
-| ANum (n : Z)               (* a non-negative integer literal of at most 15 digits *)
+| ANum (n : Z)               (* an integer literal: at most 15 digits, or -d with at most 14 digits,
+                                printed in parentheses: (-5) *)
 | AStr (s : bytes)           (* a double-quoted literal without escapes *)
 | ABool (b : bool)
 | ANull.
@@ -31,13 +32,13 @@ Definition print_cmp (op : cmpop) : bytes :=
 Definition print_atom (a : atom) : bytes :=
   match a with
   | AField n => n
-  | ANum n => dec_of_Z n
+  | ANum n => if (n <? 0)%Z then 40%N :: dec_of_Z n ++ [41%N] else dec_of_Z n
   | AStr s => 34%N :: s ++ [34%N]
   | ABool b => if b then s_true else s_false
   | ANull => s_null
   end.
 
-(* f < 5      !(X)      (X) && (Y)      (X) || (Y) *)
+(* f < 5      f > (-5)      !(X)      (X) && (Y)      (X) || (Y) *)
 Fixpoint print (e : bexpr) : bytes :=
   match e with
   | BAtom a => print_atom a
@@ -63,7 +64,7 @@ Definition safe_char (c : N) : bool := ((32 <=? c) && negb (c =? 34) && negb (c 
 Definition wf_atom (a : atom) : bool :=
   match a with
   | AField n => wf_name n
-  | ANum n => ((0 <=? n) && (n <? 1000000000000000))%Z
+  | ANum n => ((-100000000000000 <? n) && (n <? 1000000000000000))%Z
   | AStr s => forallb safe_char s
   | ABool _ | ANull => true
   end.
@@ -84,7 +85,10 @@ Variable obj : eobj F.
 Definition den_atom (a : atom) : res (evalue F) :=
   match a with
   | AField n => get_ref_value F O obj false (VUndef F) n false
-  | ANum n => Ok (VFloat F (f_of_int F O n))
+  | ANum n =>
+      (* a negative literal is the float64 product of its magnitude and -1 (parseFloat's n * -1) *)
+      if (n <? 0)%Z then Ok (VFloat F (f_mul F O (f_of_int F O (- n)%Z) (f_of_int F O (-1)%Z)))
+      else Ok (VFloat F (f_of_int F O n))
   | AStr s => Ok (VStr F s)
   | ABool b => Ok (VBool F b)
   | ANull => Ok (VNull F)
